@@ -65,6 +65,136 @@ func variant(rng *rand.Rand, i int) hellospec.Desc {
 	return d
 }
 
+// session: the requests of one connection; before(i) runs before request i (coordination between two clients)
+func session(st *stack.Stack, cl *stack.Client, pre *Preamble, tags []string, enc *h2raw.Enc, before func(i int)) string {
+	if cl.Proto == "h2" {
+		cl.Conn.SetDeadline(time.Now().Add(20 * time.Second))
+		cl.Conn.Write([]byte(h2raw.Preface))
+		var ss []h2raw.Setting
+		for _, s := range pre.Settings {
+			ss = append(ss, h2raw.Setting{ID: uint16(s[0]), Val: s[1]})
+		}
+		cl.Conn.Write(h2raw.Settings(ss...))
+		cl.Conn.Write(h2raw.WindowUpdate(0, pre.WU))
+		for _, p := range pre.Prios {
+			cl.Conn.Write(h2raw.Priority(p[0], h2raw.Prio{Dep: p[2], Excl: p[1] == 1, Weight: uint8(p[3])}))
+		}
+		hc := h2raw.NewConn(cl.Conn)
+		hc.AutoWU = false
+		m := map[byte]h2raw.HF{'m': {":method", "GET"}, 'a': {":authority", "vf.test"}, 's': {":scheme", "https"}, 'p': {":path", "/r"}}
+		for r, tag := range tags {
+			before(r)
+			var fs []h2raw.HF
+			for i := 0; i < 4; i++ {
+				fs = append(fs, m[pre.Order[i]])
+			}
+			fs = append(fs, h2raw.HF{"x-vf-tag", tag})
+			sid := uint32(1 + 2*r)
+			cl.Conn.Write(h2raw.Headers(sid, true, h2raw.Block(fs), nil, 0))
+			if err := hc.WaitStreams(sid); err != nil {
+				return "h2: " + err.Error()
+			}
+		}
+		return ""
+	}
+	for r, tag := range tags {
+		before(r)
+		if _, _, err := cl.H1("GET /r HTTP/1.1\r\nHost: vf.test\r\nX-Vf-Tag: "+tag+"\r\n\r\n", "GET"); err != nil {
+			return "h1: " + err.Error()
+		}
+	}
+	return ""
+}
+
+func collect(st *stack.Stack, o *ConnObs, tags []string) {
+	for _, tag := range tags {
+		ro := ReqObs{Tag: tag}
+		for _, r := range st.Backend.ByTag(tag) {
+			ro.Fwd++
+			ro.JA3 = append(ro.JA3, r.Header.Values("X-Ja3-Fingerprint")...)
+			ro.JA4 = append(ro.JA4, r.Header.Values("X-Ja4-Fingerprint")...)
+			ro.H2 = append(ro.H2, r.Header.Values("X-Http2-Fingerprint")...)
+		}
+		o.Reqs = append(o.Reqs, ro)
+	}
+}
+
+// latecomer: connection A is established and has been served once; connection B arrives and is caught in the middle of its
+// ClientHello; A is served again; B completes its hello and is served.  Whatever A left behind (a buffer, a cached object) and
+// whatever A does meanwhile must not reach B's fingerprints, nor B's arrival A's.
+func latecomer(st *stack.Stack, rng *rand.Rand, idA, idB, wave int, protoA, protoB string) []ConnObs {
+	mk := func(id int, proto string) (hellospec.Desc, *Preamble) {
+		d := variant(rng, id)
+		if proto == "h1" {
+			d.ALPN = []string{"http/1.1"}
+		}
+		pre := &Preamble{Settings: [][2]uint32{{3, uint32(100 + id)}, {4, uint32(65536 + 16*id)}}, WU: uint32(1000000 + id), Order: []string{"masp", "mpas", "mspa", "msap"}[id%4]}
+		return d, pre
+	}
+	dA, preA := mk(idA, protoA)
+	dB, preB := mk(idB, protoB)
+	oA, oB := ConnObs{ID: idA, Wave: wave}, ConnObs{ID: idB, Wave: wave}
+	abstract := func(o *ConnObs, cl *stack.Client) {
+		if cl != nil && cl.Raw != nil {
+			msg := cl.Raw.HelloMessage()
+			o.HelloHex = hex.EncodeToString(msg)
+			if a, perr := hello.ParseMessage(msg); perr == nil {
+				o.Abstract = a
+			}
+		}
+	}
+	clA, err := stack.DialUTLS(st.Addr, dA.Spec(), stack.DialOpts{ALPN: dA.ALPN})
+	abstract(&oA, clA)
+	if err != nil {
+		oA.Err = err.Error()
+		return []ConnObs{oA}
+	}
+	defer clA.Close()
+	oA.Proto = clA.Proto
+	if clA.Proto == "h2" {
+		oA.Pre = preA
+	}
+	tagsA := []string{fmt.Sprintf("c%d-r0", idA), fmt.Sprintf("c%d-r1", idA), fmt.Sprintf("c%d-r2", idA)}
+	tagsB := []string{fmt.Sprintf("c%d-r0", idB), fmt.Sprintf("c%d-r1", idB)}
+	held, release := make(chan struct{}), make(chan struct{})
+	bDone := make(chan struct{})
+	go func() {
+		defer close(bDone)
+		clB, err := stack.DialUTLS(st.Addr, dB.Spec(), stack.DialOpts{ALPN: dB.ALPN, HoldAt: 40 + rng.Intn(60), HoldCh: release, Held: held})
+		abstract(&oB, clB)
+		if err != nil {
+			oB.Err = err.Error()
+			return
+		}
+		defer clB.Close()
+		oB.Proto = clB.Proto
+		if clB.Proto == "h2" {
+			oB.Pre = preB
+		}
+		oB.Err = session(st, clB, preB, tagsB, nil, func(int) {})
+		collect(st, &oB, tagsB)
+	}()
+	oA.Err = session(st, clA, preA, tagsA, nil, func(i int) {
+		switch i {
+		case 1: // A was served once; now let B get stuck in its hello, then go on
+			select {
+			case <-held:
+			case <-time.After(3 * time.Second):
+			}
+			time.Sleep(5 * time.Millisecond)
+		case 2: // A was served again while B was stuck; let B finish, and serve A once more afterwards
+			close(release)
+			time.Sleep(30 * time.Millisecond)
+		}
+	})
+	select {
+	case <-bDone:
+	case <-time.After(10 * time.Second):
+	}
+	collect(st, &oA, tagsA)
+	return []ConnObs{oA, oB}
+}
+
 func main() {
 	out := os.Args[1]
 	seed, _ := strconv.ParseInt(os.Getenv("VERIF_SEED"), 10, 64)
@@ -233,6 +363,17 @@ func main() {
 		wg.Wait()
 		if gated {
 			verifhook.Sink = nil
+		}
+	}
+	// latecomer pairs, every protocol combination
+	pairs := 2
+	if os.Getenv("VERIF_TIER") == "thorough" {
+		pairs = 10
+	}
+	for k := 0; k < pairs; k++ {
+		for _, pp := range [][2]string{{"h1", "h1"}, {"h1", "h2"}, {"h2", "h1"}, {"h2", "h2"}} {
+			id += 2
+			all = append(all, latecomer(st, rng, id-1, id, 1000+k, pp[0], pp[1])...)
 		}
 	}
 	b, _ := json.Marshal(all)
